@@ -312,6 +312,7 @@ pub fn vshort(v: &Variant) -> String {
 
 pub fn run_plans(rep: &Reporter, focus: &[&str], plans: &[Plan], deadline: Option<Instant>) -> (Agg, Vec<Value>, bool) {
     // cheapest scopes first: a wall clock cap (loaded machine) then only cuts the largest enumerations
+    if plans.iter().any(|p| p.par1) { crate::rec::install_light_hook(); }
     let mut sorted: Vec<&Plan> = plans.iter().collect();
     sorted.sort_by_key(|p| p.limit.map_or(p.fam.count(), |l| l.min(p.fam.count())) * if p.rotate { 1 } else { p.variants.len() as u64 } * p.cfgs.len() as u64);
     let mut total = Agg::default();
